@@ -268,6 +268,7 @@ class Exec:
             if p is None: s.ub(st, '%s through uninitialised pointer' % what)
             if is_sym(p): raise Inconclusive('%s through symbolic integer pointer' % what)
             p = s.i2p(p)
+        if not isinstance(p.obj, tuple) and p.obj == 0 and is_sym(p.off): raise Inconclusive('%s through symbolic integer pointer' % what)
         if isinstance(p.obj, tuple) or p.obj == 0:
             s.ub(st, '%s through null/invalid pointer (%s)' % (what, 'null' if p.obj == 0 and not is_sym(p.off) and p.off == 0 else repr(p)))
         o = st.mem.get(p.obj)
@@ -397,7 +398,7 @@ class Exec:
         if is_sym(v):
             # obj<<32 + off with symbolic off: recover when the upper half is concrete
             hi = simp(z3.Extract(63, 32, v))
-            if is_sym(hi): raise Inconclusive('inttoptr of symbolic value')
+            if is_sym(hi): return Ptr(0, v)  # an integer kept in a pointer-typed SSA value (type-punned union member); dereferencing it is inconclusive
             lo = simp(z3.ZeroExt(32, z3.Extract(31, 0, v)))
             return Ptr(hi, lo) if hi else Ptr(0, v)
         hi = v >> 32
